@@ -355,6 +355,34 @@ type Result struct {
 	PointsJudged int64
 }
 
+// BaseOnly evaluates only clause (a) of C06 on w: the connectivity reported with the flag equals the one reported without.
+func BaseOnly(w *wm.World) Result {
+	var res Result
+	base, _ := wm.RunList(w.Infos(), false)
+	exp, _ := wm.RunList(w.Infos(), true)
+	if base.Err != nil || exp.Err != nil {
+		documented := func(e error) bool {
+			return e == nil || (strings.Contains(e.Error(), "cannot convert named port for an IP destination") && w.NormalizeNS().NamedPortOnIPPossible())
+		}
+		res.Outcome = "ERR"
+		if documented(base.Err) && documented(exp.Err) {
+			res.Skipped = "documented named-port error"
+			return res
+		}
+		if (base.Err == nil) != (exp.Err == nil) {
+			res.BaseDiffers = append(res.BaseDiffers, fmt.Sprintf("only one of the two runs fails: without flag err=%v, with flag err=%v", base.Err, exp.Err))
+		}
+		res.Skipped = "analysis error"
+		return res
+	}
+	res.WF = exp.WF
+	res.Outcome = exp.OutcomeKey()
+	if base.OutcomeKey() != exp.OutcomeKey() {
+		res.BaseDiffers = append(res.BaseDiffers, fmt.Sprintf("without flag: %s\nwith flag:    %s", base.OutcomeKey(), exp.OutcomeKey()))
+	}
+	return res
+}
+
 // Check runs list with and without exposure analysis on w and evaluates both properties.
 func Check(w *wm.World) Result {
 	var res Result
